@@ -1576,6 +1576,42 @@ def gen_program(rng, nops):
     return prog
 
 
+
+# --------------------------------------------------------------------------- near-tie order values (float class)
+NEAR_S = 1 << 60
+
+
+def near_tie_cls_cases(rng, n):
+    """classification cases whose order values are NOT on a coarse grid: values h / 2^60 with h next to a centre value
+    (an interface) by a few double-precision ulps (2^7 in these units for values in [1/2, 1)) or by a few
+    single-precision steps (2^-24 … 2^-26 relative), in runs where the extreme is not the first of the near-ties.
+    Every h is a multiple of 2^7 below 2^60 in magnitude, so h / 2^60 is an exact double."""
+    S = NEAR_S
+    centres = (1 << 59, 3 << 58, 5 << 57, 1 << 58, -(1 << 59), -(3 << 58), 7 << 56)   # 0.5 0.75 0.625 0.25 -0.5 -0.75 0.4375
+    steps = (1 << 7, 1 << 7, 1 << 8, 1 << 33, 1 << 34, 1 << 35, 1 << 36)
+    out = []
+    for _ in range(n):
+        c = rng.choice(centres)
+
+        def near():
+            return c + rng.choice((-3, -2, -1, -1, 0, 1, 1, 2, 3)) * rng.choice(steps)
+        far = (c - (1 << 57), c + (1 << 57), c - (1 << 56), c + (1 << 56))
+        ops = []
+        L = rng.randint(3, 12)
+        while len(ops) < L:
+            if rng.random() < 0.5:
+                run = [near() for _ in range(rng.randint(2, 4))]
+                # the extreme of the run strictly inside it (never first)
+                run.insert(rng.randint(1, len(run)), (max(run) + rng.choice(steps)) if rng.random() < 0.5 else (min(run) - rng.choice(steps)))
+                ops += run
+            else:
+                ops.append(rng.choice(far))
+        t = rng.choice(((c - (1 << 57), c, c + (1 << 57)), (c, c, c + (1 << 56)), (c - (1 << 56), near(), c + (1 << 56)),
+                        (c,), (c - (1 << 57), c)))
+        assert all(abs(h) < S and h % (1 << 7) == 0 for h in list(ops) + list(t))
+        out.append((tuple(ops), tuple(t), S))
+    return out
+
 # --------------------------------------------------------------------------- classification
 def mk(Path, System, ops, maxlen=100_000):
     p = Path(maxlen=maxlen)
@@ -1740,6 +1776,8 @@ def run(ctx):
         ops = tuple(rng.randint(-3, 6) for _ in range(L))
         t = tuple(rng.randint(-2, 5) for _ in range(3))
         cls_cases.append((ops, t, rng.choice(SCALES)))
+    # order values a few ulps / a few single-precision steps apart (near-ties of the extremes, values next to an interface)
+    cls_cases += near_tie_cls_cases(rng, 1500 if ctx.quick else 30000)
     ctx.extra["exhaustive_part"] = (f"classification: all sequences of length ≤ {maxlen} over 5 levels × {len(triples)} "
                                     f"interface triples (+ interface lists of length 0,1,2,4 for length ≤ 4)")
     ctx.exhaustive = False
